@@ -117,7 +117,8 @@ PROPS["C20"] = dict(level="proof",
     assumptions=[ARITH, ENGINE, "the float64 clause and the equivalence of the three construction routes involve JAX's global x64 flag, Hydra instantiate and the OmegaConf YAML round trip: bounded run-time checks only (fresh processes, 5 solvers x 2 problems), not proved"])
 
 PROPS["C08"] = dict(
-    bounded=[dict(name="c08_runtime", script="harness_solvers.py", args=["--prop", "c08"], wall_s=300)],
+    bounded=[dict(name="c08_runtime", script="harness_solvers.py", args=["--prop", "c08"], wall_s=300),
+             dict(name="c07_runtime", script="harness_solvers.py", args=["--prop", "c07"], wall_s=300)],      # the periodic solver's stop rule against its documented measure (a C08 report then carries a concrete input)
     level="proof",
     units=[U(V1, f"{VI}.{m}") for m in ["_get_span", "_get_max_diff", "_iteration_step", "solve"]]
         + [U(["contracts.logging_configs"], f"{VI}._setup_convergence_testing", only=["pos."])]
@@ -244,7 +245,7 @@ LEVEL_TEXT = {
  "C17": "Proof with two loop invariants: P entries = event mass per successor, R = expected reward, ValueError exactly when some row deviates by more than the tolerance, accepted rows renormalised to one, the error message names a pair attaining the largest deviation (argmax over the flattened array linked to the pair by instantiated lemma calls); equality of the matrix backup in Lean.",
  "C18": "Proof for all n_states, max_batch_size, device counts: attribute consistency, layout, un-batching for ranks 3-5.",
  "C19": "Proof per dimension count 1..4 with arbitrary integer bounds: enumeration, inverse index, clipping to the nearest box vector.",
- "C20": "Proof: validators in both directions for all nine config classes, whole constructors of the five solvers reach normal return for every accepted parameter set (gamma = 0 excepted: known finding), format spec valid, verbosity mapping, config capture on both routes. Route equivalence and the float64 clause bounded only.",
+ "C20": "Proof: validators in both directions for all nine config classes, whole constructors of the five solvers reach normal return for every accepted parameter set (gamma = 0 excepted: known finding), format spec valid, verbosity mapping, config capture on both routes; the WHOLE constructor is executed on both construction routes (keyword arguments + problem instance; configuration object alone with the real, validated config dataclass and hydra's instantiate as assumed contract) and establishes on each that the core and derived attributes (gamma, epsilon, batch size, period, evaluation budget, PRNG key, problem) are the given parameters - hence the two routes build the same solver; the third route (saved configuration file) is the restore contract of C10 relative to the OmegaConf round trip. The float64 clause and the behavioural comparison of the three routes in fresh processes stay bounded.",
 }
 for _p, _t in LEVEL_TEXT.items():
     if _p in PROPS: PROPS[_p]["level_text"] = _t
